@@ -167,7 +167,12 @@ def classify(cfg, d, req):
     return ("match", rb.oid_text(oid), rb.dec_int_content(vc, strict=False))
 
 
-def execute(G, c):
+class TimingSuspect(Exception):
+    """A blocking driver reported a timeout where the model expects a datagram to be consumed: could be a loaded
+    machine (150 ms budget) rather than the library; the case is re-run with a generous timeout before anything is reported."""
+
+
+def execute(G, c, timeout=0.15):
     cfg, reqs = c["cfg"], c["reqs"]
     parsed = []
     bursts = []
@@ -214,7 +219,7 @@ def execute(G, c):
         client.cfg = cfg
         kw = {"link": link, "client": client}
     try:
-        outs = drivers.run_calls(G, c["driver"], cfg, calls, handler, timeout=0.15, **kw)
+        outs = drivers.run_calls(G, c["driver"], cfg, calls, handler, timeout=timeout, **kw)
     finally:
         if link is not None:
             link.close()
@@ -242,6 +247,8 @@ def execute(G, c):
             break
         out = outs[k]
         what = "request %d (%s) of %r over %s [%s]: model expects %r, call gave %r" % (k, r["op"], [x["op"] for x in reqs], cfg.describe(), c["driver"], exp, out)
+        if (c["driver"] != "nb" and timeout < 1.0 and exp[0] != "empty" and out.kind == "exc" and isinstance(out.exc, TimeoutError)):
+            raise TimingSuspect(what)
         if exp[0] == "empty":
             ok = out.kind == "exc" and isinstance(out.exc, (BlockingIOError,) if c["driver"] == "nb" else (TimeoutError,))
             if not ok:
@@ -277,7 +284,14 @@ def run(rep, tier):
     rep.assumptions = ["FIFO delivery on loopback UDP", "ids are read from the wire, never predicted"]
 
     def body(c):
-        execute(G, c)
+        try:
+            execute(G, c)
+        except TimingSuspect:
+            rep.count("timing_suspects_rerun_with_long_timeout")
+            try:
+                execute(G, c, timeout=3.0)
+            except TimingSuspect as t:
+                raise core.Failure("matching-reply-not-delivered", "even with a 3 s timeout: %s" % t)
         faults = set(f for r in c["reqs"] for _, f, _ in r["ems"])
         rep.case((c["cfg"].describe(), repr(c["reqs"])), nontrivial(c),
                  sample={"cfg": c["cfg"].describe(), "driver": c["driver"], "reqs": c["reqs"]},
@@ -305,8 +319,8 @@ def exhaustive(rep, G):
                                   {"op": "get", "ems": [(s, f, 5) for s, f in zip(srcs, word)]}]}
                     try:
                         execute(G, c)
-                    except core.Failure as f:
-                        rep.violation(f.signature, describe(c), f.message)
+                    except (core.Failure, TimingSuspect) as f:
+                        rep.violation(getattr(f, "signature", "timing"), describe(c), getattr(f, "message", str(f)))
                         return
                     total += 1
                     rep.case((ver_cfg.version, word, srcs), True, classes=["exhaustive"])
@@ -318,6 +332,11 @@ def replay(rep, case, body=None):
     c = {"cfg": gen.cfg_from_json(case["_cfg"]), "driver": case["driver"], "discover": case.get("discover", False),
          "reqs": [{"op": r["op"], "ems": [tuple(e) for e in r["ems"]]} for r in case["reqs"]]}
     try:
-        execute(G, c)
+        try:
+            execute(G, c)
+        except TimingSuspect:
+            execute(G, c, timeout=3.0)
+    except TimingSuspect as t:
+        rep.violation("matching-reply-not-delivered", case, str(t))
     except core.Failure as f:
         rep.violation(f.signature, case, f.message)
